@@ -57,9 +57,9 @@ def family():
     P = Var('P', TFun(A, BoolType))
     u, v = Var('u', A), Var('v', A)
     closedA = [a, b, f(a), g(a, b), g(b, b), f(f(a))]
-    funs = [f, Lambda(u, g(u, a)), Lambda(u, u), Lambda(u, a), Lambda(u, g(u, u))]
+    funs = [f, Lambda(u, g(u, a)), Lambda(u, u), Lambda(u, a), Lambda(u, g(u, u)), Lambda(u, g(f(u), u))]
     preds = [P, Lambda(u, Eq(u, a)), Lambda(u, P(f(u)))]
-    fun2 = [g, Lambda(u, Lambda(v, g(v, u))), Lambda(u, Lambda(v, u))]
+    fun2 = [g, Lambda(u, Lambda(v, g(v, u))), Lambda(u, Lambda(v, u)), Lambda(u, Lambda(v, g(g(f(v), u), v))), Lambda(u, Lambda(v, g(f(u), v)))]
     # patterns at the schematic type ?'a
     x, y = SVar('x', SA), SVar('y', SA)
     sf = SVar('F', TFun(SA, SA))
@@ -105,7 +105,9 @@ def family():
     targets += [Var('a', B), Comb(Var('f', TFun(B, B)), Var('a', B)), Var('n', NatType), Eq(Var('n', NatType), Var('n', NatType))]
     _F['targets'] = targets
     _F['instances'] = {pi: sorted(set(v)) for pi, v in inst_of.items() if pi != 'idx'}
-    seeds = [None, {}, {'x': a}, {'x': b}, {'y': f(a)}, {'x': a, 'ty': A}, {'ty': NatType}, {'F': f}, {'x': Var('n', NatType)}]
+    # (the last three: seed values mentioning variables named like the binders of the patterns)
+    seeds = [None, {}, {'x': a}, {'x': b}, {'y': f(a)}, {'x': a, 'ty': A}, {'ty': NatType}, {'F': f}, {'x': Var('n', NatType)},
+             {'x': u}, {'y': g(u, v)}, {'x': v, 'y': u}]
     _F['seeds'] = seeds
     return _F
 
@@ -293,14 +295,28 @@ def run_lists(u, out):
         out['evals'] += 1
         if os.environ.get('VERIF_TWIN'):
             continue
+        seed_d = rnd.choice(F['seeds'] + [None, None, {}])
+        sd = mk_seed(seed_d)
+        snap = snapshot(sd)
         try:
-            inst = matcher.first_order_match_list(pats, ts)
+            inst = matcher.first_order_match_list(pats, ts, sd) if sd is not None else matcher.first_order_match_list(pats, ts)
         except MatchException:
+            if snapshot(sd) != snap:
+                out['cex'].append({'kind': 'match-seed-mutated', 'part': 'list', 'seed': seed, 'lo': lo, 'k': k, 'detail': 'failed first_order_match_list(%s, %s) modified the caller\'s instantiation %s' % (pats, ts, seed_d)})
             continue
         except Exception as e:
             out['cex'].append({'kind': 'matchlist-exception', 'part': 'list', 'seed': seed, 'lo': lo, 'k': k, 'detail': 'first_order_match_list(%s, %s) raised %r' % (pats, ts, e)})
             continue
-        out['keys'].add('l|%s|%s' % (pis, tis))
+        out['keys'].add('l|%s|%s|%s' % (pis, tis, seed_d))
+        if snapshot(sd) != snap:
+            out['cex'].append({'kind': 'match-seed-mutated', 'part': 'list', 'seed': seed, 'lo': lo, 'k': k, 'detail': 'first_order_match_list(%s, %s) modified the caller\'s instantiation %s' % (pats, ts, seed_d)})
+            continue
+        if sd is not None:
+            lost = [kk for kk, vv in sd.items() if kk not in inst or inst[kk] != vv] + [kk for kk, vv in sd.tyinst.items() if kk not in inst.tyinst or inst.tyinst[kk] != vv]
+            if lost:
+                out['cex'].append({'kind': 'match-seed-altered', 'part': 'list', 'seed': seed, 'lo': lo, 'k': k,
+                                   'detail': 'first_order_match_list(%s, %s) with seed %s returns %s: seed entries %s lost or changed' % ([str(x) for x in pats], [str(x) for x in ts], seed_d, inst, lost)})
+                continue
         for p, t in zip(pats, ts):
             try:
                 res = p.subst_norm(inst)
